@@ -450,6 +450,36 @@ func (b *bound) refuseFlag(key string) *bool {
 	return f
 }
 
+// listenMailbox creates the receiving side of a mailbox collection and makes it listen (mailbox 0). The address is
+// found by binding port 0 and releasing it; somebody else may grab it in between, so this is retried.
+func (r *runner) listenMailbox(mk func(resources.MailboxesAddressMappingFn, ...resources.MailboxesOption) *resources.Mailboxes,
+	opts []resources.MailboxesOption) (recvSide *resources.Mailboxes, local distsys.ArchetypeResource, addr string) {
+	for try := 0; ; try++ {
+		ok := func() (ok bool) {
+			defer func() {
+				if p := recover(); p != nil {
+					if try >= 8 {
+						panic(p)
+					}
+					ok = false
+				}
+			}()
+			addr = freeAddr()
+			a := addr
+			recvSide = mk(func(tla.Value) (resources.MailboxKind, string) { return resources.MailboxesLocal, a }, opts...)
+			var err error
+			local, err = recvSide.Index(r.scratch, tla.MakeNumber(0)) // starts listening
+			if err != nil {
+				panic(err)
+			}
+			return true
+		}()
+		if ok {
+			return
+		}
+	}
+}
+
 func (r *runner) makeBound(d resDesc) *bound {
 	b := &bound{desc: d}
 	uniq := fmt.Sprintf("c%d.%s", r.k.ID, d.Name)
@@ -705,21 +735,16 @@ func (r *runner) makeBound(d resDesc) *bound {
 			}
 		}
 	case "tcp", "relaxed":
-		addr := freeAddr()
 		mk := resources.NewTCPMailboxes
 		if d.Kind == "relaxed" {
 			mk = resources.NewRelaxedMailboxes
 		}
 		opts := []resources.MailboxesOption{resources.WithMailboxesReadTimeout(40 * time.Millisecond),
 			resources.WithMailboxesWriteTimeout(500 * time.Millisecond), resources.WithMailboxesDialTimeout(500 * time.Millisecond)}
-		recvSide := mk(func(tla.Value) (resources.MailboxKind, string) { return resources.MailboxesLocal, addr }, opts...)
+		recvSide, local, addr := r.listenMailbox(mk, opts)
 		b.proxy = newNetProxy(addr)
 		sendAddr := b.proxy.addr()
 		sendSide := mk(func(tla.Value) (resources.MailboxKind, string) { return resources.MailboxesRemote, sendAddr }, opts...)
-		local, err := recvSide.Index(r.scratch, tla.MakeNumber(0)) // starts listening
-		if err != nil {
-			panic(err)
-		}
 		b.res = sendSide
 		b.env = func(ev []interface{}) { b.proxy.setDown(!ev[2].(bool)) } // ["net", name, up?]
 		seen := []interface{}{}
@@ -880,18 +905,14 @@ func (r *runner) makeBound(d resDesc) *bound {
 		}
 	case "tcp_local", "relaxed_local":
 		// the archetype under test is the receiver; the harness commits batches as the sender
-		addr := freeAddr()
 		mk := resources.NewTCPMailboxes
 		if d.Kind == "relaxed_local" {
 			mk = resources.NewRelaxedMailboxes
 		}
 		opts := []resources.MailboxesOption{resources.WithMailboxesReadTimeout(150 * time.Millisecond),
 			resources.WithMailboxesWriteTimeout(500 * time.Millisecond), resources.WithMailboxesDialTimeout(500 * time.Millisecond)}
-		recvSide := mk(func(tla.Value) (resources.MailboxKind, string) { return resources.MailboxesLocal, addr }, opts...)
+		recvSide, _, addr := r.listenMailbox(mk, opts)
 		sendSide := mk(func(tla.Value) (resources.MailboxKind, string) { return resources.MailboxesRemote, addr }, opts...)
-		if _, err := recvSide.Index(r.scratch, tla.MakeNumber(0)); err != nil { // starts listening
-			panic(err)
-		}
 		recvSide.Abort(r.scratch)
 		b.res = recvSide
 		b.snap = func(keys []interface{}) interface{} {
